@@ -43,6 +43,9 @@ void *realloc(void *p, size_t n)
 #ifndef VP_MEM_K
 #define VP_MEM_K 128
 #endif
+#ifndef VP_MEM_BIG
+#define VP_MEM_BIG 4096
+#endif
 #ifndef VP_KEEP_CBMC_MEMCPY
 void *memcpy(void *dst, const void *src, size_t n)
 {
@@ -61,6 +64,15 @@ void *memcpy(void *dst, const void *src, size_t n)
       for (size_t i = 0; i < VP_MEM_K / 8 && 8 * i < n; i++) ((unsigned long *) dst)[i] = ((const unsigned long *) src)[i];
     } else
     for (size_t i = 0; i < VP_MEM_K && i < n; i++) ((char *) dst)[i] = ((const char *) src)[i];
+#pragma CPROVER check pop
+  } else if (n <= VP_MEM_BIG && (n & 7) == 0 && (__CPROVER_POINTER_OFFSET(dst) & 7) == 0 && (__CPROVER_POINTER_OFFSET(src) & 7) == 0) {
+    /* whole structures: word copies keep pointer fields whole and known (see memset) */
+#pragma CPROVER check push
+#pragma CPROVER check disable "pointer"
+#pragma CPROVER check disable "bounds"
+#pragma CPROVER check disable "pointer-overflow"
+#pragma CPROVER check disable "signed-overflow"
+    for (size_t i = 0; i < VP_MEM_BIG / 8 && 8 * i < n; i++) ((unsigned long *) dst)[i] = ((const unsigned long *) src)[i];
 #pragma CPROVER check pop
   } else {
     char src_n[n];
@@ -108,6 +120,17 @@ void *memset(void *s, int c, size_t n)
 #pragma CPROVER check disable "signed-overflow"
     for (size_t i = 0; i < VP_MEM_K && i < n; i++) ((char *) s)[i] = (char) c;
 #pragma CPROVER check pop
+  } else if (n <= VP_MEM_BIG && (n & 7) == 0 && (__CPROVER_POINTER_OFFSET(s) & 7) == 0) {
+    /* whole structures (memset(obj, 0, sizeof *obj)): word stores keep every field a known constant for symex; the
+     * array primitive below would make all of them opaque. With a constant n the loop unrolls exactly n/8 times. */
+    unsigned long w = (unsigned char) c; w |= w << 8; w |= w << 16; w |= w << 32;
+#pragma CPROVER check push
+#pragma CPROVER check disable "pointer"
+#pragma CPROVER check disable "bounds"
+#pragma CPROVER check disable "pointer-overflow"
+#pragma CPROVER check disable "signed-overflow"
+    for (size_t i = 0; i < VP_MEM_BIG / 8 && 8 * i < n; i++) ((unsigned long *) s)[i] = w;
+#pragma CPROVER check pop
   } else {
     unsigned char s_n[n];
     __CPROVER_array_set(s_n, (unsigned char) c);
@@ -115,4 +138,12 @@ void *memset(void *s, int c, size_t n)
   }
   return s;
 }
+/* the compiler builtins (glibc's CPU_ZERO_S, fortified string.h, struct copies lowered by the front end) would
+ * otherwise get CBMC's library bodies, i.e. the defective symbolic-length path: route them to the models above */
+void *__builtin_memset(void *s, int c, size_t n) { return memset(s, c, n); }
+void *__builtin_memcpy(void *d, const void *s, size_t n) { return memcpy(d, s, n); }
+void *__builtin_memmove(void *d, const void *s, size_t n) { return memmove(d, s, n); }
+void *__builtin___memset_chk(void *s, int c, size_t n, size_t os) { (void) os; return memset(s, c, n); }
+void *__builtin___memcpy_chk(void *d, const void *s, size_t n, size_t os) { (void) os; return memcpy(d, s, n); }
+void *__builtin___memmove_chk(void *d, const void *s, size_t n, size_t os) { (void) os; return memmove(d, s, n); }
 #endif
